@@ -434,8 +434,14 @@ impl VRead {
     pub fn seek_current(&mut self, d: i64) -> (r: Result<u64, IoError>) { unimplemented!() }
     #[verifier::external_body]
     pub fn seek_end(&mut self, d: i64) -> (r: Result<u64, IoError>) { unimplemented!() }
+    /// `Seek::stream_position` (not used today): reports the position, changes nothing
     #[verifier::external_body]
-    pub fn stream_position(&mut self) -> (r: Result<u64, IoError>) { unimplemented!() }
+    pub fn stream_position(&mut self) -> (r: Result<u64, IoError>)
+        ensures
+            final(self).content() == old(self).content(), final(self).pos() == old(self).pos(),
+            final(self).failed() == (old(self).failed() || r is Err),
+            r is Ok ==> r->Ok_0 as int == old(self).pos(),
+    { unimplemented!() }
 }
 // `bytes.as_ref()` of BytesMut: the unconsumed bytes (second inherent impl block: _shared/bytes.rs is not edited)
 impl Cur {
